@@ -74,19 +74,23 @@ def FExpr.prio : FExpr → Nat
   | _ => 100
 
 /-- The AST is the one the documented grammar assigns to its own rendering (left-associative
-operators: the right child binds strictly tighter); literals are well formed and written without
-a percent sign; phrases can be typed. -/
+operators: the right child binds strictly tighter); literals are well formed; phrases can be
+typed. -/
 def WFF : FExpr → Prop
-  | .lit l => l.WF ∧ l.percent = false
+  | .lit l => l.WF
   | .fact first more => PhraseOK first more
   | .bin op a b => WFF a ∧ WFF b ∧ op.prio ≤ a.prio ∧ op.prio < b.prio
   | .paren e => WFF e
 
-/-- Render with the layout threaded left to right: blank positions on both sides of a binary
-operator and inside parentheses next to both delimiters (as `Spec.Arith.render`). The blank runs
-INSIDE a phrase belong to the phrase. -/
+/-- Render with the layout threaded left to right: blank positions between a number and its `%`,
+on both sides of a binary operator and inside parentheses next to both delimiters (as
+`Spec.Arith.render`). The blank runs INSIDE a phrase belong to the phrase. -/
 def render : FExpr → Layout → List Char × Layout
-  | .lit l, ws => (renderNumber l, ws)
+  | .lit l, ws =>
+    if l.percent then
+      let (b, ws) := nextBlank ws
+      (renderNumber l ++ b ++ ['%'], ws)
+    else (renderNumber l, ws)
   | .fact first more, ws => (phraseText first more, ws)
   | .bin op a b, ws =>
     let (sa, ws) := render a ws
@@ -112,7 +116,10 @@ abbrev afterF (e : FExpr) (ws : Layout) : Layout := (render e ws).2
 
 /-- In-order token list of an expression under a layout. -/
 def toksF : FExpr → Layout → List Token
-  | .lit l, _ => [⟨.NUMBER, renderNumber l⟩]
+  | .lit l, ws =>
+    if l.percent then
+      [⟨.NUMBER, renderNumber l⟩] ++ blankTok (blank1 ws) ++ [⟨.PERCENTAGE, ['%']⟩]
+    else [⟨.NUMBER, renderNumber l⟩]
   | .fact first more, _ => phraseToks first more
   | .bin op a b, ws =>
     let ws1 := afterF a ws
@@ -136,7 +143,7 @@ def gluesToSign : FExpr → Bool
 /-- The admissible layouts: every blank position holds white space only (possibly nothing), and
 a binary `+` / `-` directly followed by an operand that `gluesToSign` is followed by a blank. -/
 def LayoutOKF : FExpr → Layout → Prop
-  | .lit _, _ => True
+  | .lit l, ws => l.percent = true → Blank (blank1 ws)
   | .fact _ _, _ => True
   | .bin op a b, ws =>
     let ws1 := afterF a ws
@@ -166,6 +173,7 @@ inductive FoldF (R : Tree → FExpr → Prop) : Nat → FExpr → List Tree → 
 /-- The tree `t` is the one the grammar builds for the expression `e`.
 
 * `num`: a NUMBER node (with a child) whose source text is the literal;
+* `pct`: a PERCENTAGE node whose first child is the NUMBER token of the literal;
 * `fact`: a WORD node (one word) or a SENTENCE node (several) whose source text is the phrase;
 * `paren`: an OPERATION node with exactly one child that has children;
 * `chain`: an OPERATION node whose children with children are `x₀ o₁ x₁ … oₙ xₙ` (`n ≥ 1`), all
@@ -173,7 +181,10 @@ inductive FoldF (R : Tree → FExpr → Prop) : Nat → FExpr → List Tree → 
   priority `p`; it represents the left-nested `((e₀ o₁ e₁) o₂ e₂) …`. -/
 inductive RepF : Tree → FExpr → Prop
   | num {t : Tree} {l : Literal} : t.kind = .NUMBER → t.hasChildren = true →
-      t.text = renderNumber l → RepF t (.lit l)
+      l.percent = false → t.text = renderNumber l → RepF t (.lit l)
+  | pct {id : Nat} {n : Tree} {ks : List Tree} {l : Literal} : n.kind = .NUMBER →
+      n.text = renderNumber l → l.percent = true →
+      RepF (.node id .PERCENTAGE (n :: ks)) (.lit l)
   | fact {t : Tree} {first : List Char} {more : More} :
       t.kind = (if more = [] then Syntax.WORD else Syntax.SENTENCE) → t.hasChildren = true →
       t.text = phraseText first more → RepF t (.fact first more)
@@ -282,10 +293,9 @@ def order : FExpr → List (List Char)
   | .paren e => order e
   | .bin op a b => if a.prio = op.prio then order a ++ order b else order b ++ order a
 
-/-- Every literal is within the number reader's `u32` guards (`C07_guard_*`) and written without
-a percent sign. -/
+/-- Every literal is within the number reader's `u32` guards (`C07_guard_*`). -/
 def LitsOKF : FExpr → Prop
-  | .lit l => LitOK l ∧ l.percent = false
+  | .lit l => LitOK l
   | .fact _ _ => True
   | .bin _ a b => LitsOKF a ∧ LitsOKF b
   | .paren e => LitsOKF e
